@@ -22,10 +22,18 @@ muts = json.load(open(os.path.join(root, "checker", "audit", "mutants.json")))
 want = set(sys.argv[1:])
 allprops = "--all" in want
 want.discard("--all")
-ok = True
-for m in muts:
-    if want and m["name"] not in want:
-        continue
+import concurrent.futures as cf
+J = 1
+if "-j" in sys.argv:
+    k = sys.argv.index("-j"); J = int(sys.argv[k+1]); del sys.argv[k:k+2]
+    want = set(a for a in sys.argv[1:] if a != "--all")
+BIN = tempfile.mktemp(prefix="raftlint-mut-")
+shutil.copy(os.path.join(root, "bin", "raftlint"), BIN); os.chmod(BIN, 0o755)
+os.environ["VERIF_DIR"] = root
+def one(m):
+    ok = True
+    lines = []
+    def out(x): lines.append(x)
     d = tempfile.mkdtemp(prefix="raftmut-")
     try:
         dst = os.path.join(d, "repo")
@@ -33,7 +41,7 @@ for m in muts:
         path = os.path.join(dst, m["file"])
         src = open(path).read()
         if src.count(m["find"]) != 1:
-            print(f"SKIP   {m['name']}: pattern occurs {src.count(m['find'])} times"); ok = False; continue
+            out(f"SKIP   {m['name']}: pattern occurs {src.count(m['find'])} times"); return False, lines
         new = src.replace(m["find"], m["replace"])
         new = apply_pre(m, new)
         open(path, "w").write(new)
@@ -44,22 +52,22 @@ for m in muts:
             env = dict(os.environ, VERIF_OUT=d)
             os.makedirs(os.path.join(d, "checker"), exist_ok=True)
             shutil.copy(os.path.join(root, "checker", "floors.json"), os.path.join(d, "checker", "floors.json"))
-            r = subprocess.run([os.path.join(root, "bin", "raftlint"), "-property", p, "-repo", dst], capture_output=True, text=True, env=env)
+            r = subprocess.run([BIN, "-property", p, "-repo", dst], capture_output=True, text=True, env=env)
             if r.returncode != 0:
                 noisy.append(p)
                 lines = [l for l in r.stdout.splitlines() if l.strip().startswith(("VIOLATED", "UNDECIDED", "ENGINE"))]
                 outs.append(f"{p}: FALSE ALARM " + " || ".join(l.strip()[:200] for l in lines[:3]))
         if m.get("silent"):
-            print(("NOISY  " if noisy else "QUIET  ") + m["name"] + ": " + " ;; ".join(outs))
+            out(("NOISY  " if noisy else "QUIET  ") + m["name"] + ": " + " ;; ".join(outs))
             if noisy: ok = False
-            if not props: continue
+            if not props: return ok, lines
         for p in props:
             env = dict(os.environ, VERIF_OUT=d)
             os.makedirs(os.path.join(d, "checker"), exist_ok=True)
             shutil.copy(os.path.join(root, "checker", "floors.json"), os.path.join(d, "checker", "floors.json"))
             if os.path.exists(os.path.join(root, "known_findings.json")):
                 shutil.copy(os.path.join(root, "known_findings.json"), d)
-            r = subprocess.run([os.path.join(root, "bin", "raftlint"), "-property", p, "-repo", dst], capture_output=True, text=True, env=env)
+            r = subprocess.run([BIN, "-property", p, "-repo", dst], capture_output=True, text=True, env=env)
             if "load failed" in r.stdout:
                 outs.append(f"{p}: DOES NOT COMPILE: " + r.stdout[:300]); continue
             if r.returncode == 1 and "VIOLATION property=" + p in r.stdout:
@@ -70,7 +78,16 @@ for m in muts:
                 outs.append(f"{p}: silent")
         status = "DETECT" if detected else "MISSED"
         if not detected: ok = False
-        print(f"{status} {m['name']}: " + " ;; ".join(outs))
+        out(f"{status} {m['name']}: " + " ;; ".join(outs))
     finally:
         shutil.rmtree(d, ignore_errors=True)
-sys.exit(0 if ok else 1)
+    return ok, lines
+sel = [m for m in muts if not want or m["name"] in want]
+allok = True
+with cf.ThreadPoolExecutor(J) as ex:
+    for ok1, lines in ex.map(one, sel):
+        for l in lines: print(l)
+        sys.stdout.flush()
+        allok = allok and ok1
+os.remove(BIN)
+sys.exit(0 if allok else 1)
